@@ -276,3 +276,52 @@ def line_line(p1, d1, p2, d2):
     s1 = np.dot(np.cross(r, d2), n) / nn
     s2 = np.dot(np.cross(r, d1), n) / nn
     return float(dist), p1 + s1 * d1, p2 + s2 * d2
+
+
+# ----------------------------------------------------------------------------- closed-form exp (longdouble)
+def _abc(th):
+    """sin(th)/th, (1-cos th)/th^2, (th-sin th)/th^3 in longdouble, series below 1e-2"""
+    th = LD(th)
+    t2 = th * th
+    if abs(th) < LD('1e-2'):
+        A = 1 - t2 / 6 * (1 - t2 / 20 * (1 - t2 / 42 * (1 - t2 / 72)))
+        B = LD(1) / 2 * (1 - t2 / 12 * (1 - t2 / 30 * (1 - t2 / 56 * (1 - t2 / 90))))
+        C = LD(1) / 6 * (1 - t2 / 20 * (1 - t2 / 42 * (1 - t2 / 72 * (1 - t2 / 110))))
+        return A, B, C
+    s2 = np.sin(th / 2)
+    return np.sin(th) / th, 2 * s2 * s2 / t2, (th - np.sin(th)) / (t2 * th)
+
+
+def exp_twist_ld(S):
+    """exp of a twist vector: (v, w) with len 6 (se3) or 3 (se2); so(3) 3-vector via exp_rot_ld.
+    Closed form in longdouble, validated against the 50-digit mpmath exponential (tools/selftest)."""
+    S = np.asarray(S, dtype=LD).reshape(-1)
+    if S.size == 6:
+        v, w, n = S[:3], S[3:], 3
+        th = np.sqrt(np.sum(w * w))
+    else:
+        v, w, n = S[:2], S[2:], 2
+        th = abs(w[0])
+    K = skew(w)
+    A, B, C = _abc(th)
+    I = np.eye(n, dtype=LD)
+    K2 = K @ K
+    R = I + A * K + B * K2
+    V = I + B * K + C * K2
+    T = np.eye(n + 1, dtype=LD)
+    T[:n, :n] = R
+    T[:n, n] = V @ v
+    return T
+
+
+def exp_rot_ld(w):
+    """exp of so(3) 3-vector or so(2) 1-vector"""
+    w = np.asarray(w, dtype=LD).reshape(-1)
+    th = np.sqrt(np.sum(w * w)) if w.size == 3 else abs(w[0])
+    K = skew(w)
+    A, B, _ = _abc(th)
+    return np.eye(K.shape[0], dtype=LD) + A * K + B * (K @ K)
+
+
+def f64(M):
+    return np.array(M, dtype=np.float64)
